@@ -92,6 +92,9 @@ def run(repo, rep, tier):
         "and _numpy must be reached by some scenario (else ANALYSIS-ERROR). Equality of floating-point reductions and "
         "np.unique key creation order are NOT decided."
     )
+    rep.extra["explanation"] += " " + (
+        'Later additions: (R3.6) a one-row batch changes a Minimize/Maximize exactly as fill does (all regions relative to the current extremum, weight 0 and >0); (R3.7) Count adds (per-row increment) x (number of rows) on every branch; Stack with descending thresholds; (+-inf) x (zero weight) is NaN.'
+    )
     rep.not_decided += ["equality of floating-point reductions (np.average, summation order)", "data-dependent key creation order",
                         "negative weights (outside the property)",
                         "Categorize with a non-string, non-NaN numeric quantity: the scalar fill raises TypeError there, so the "
